@@ -53,7 +53,25 @@ MapOK(e) ==
             LET aln == [s \in 1..NSamples(T) |-> MappedAln(c.contigs, T.k, idx, T, s, c.ambig_mask, c.repeat_mask)]
             IN VcfOK(c.contigs, c.cnames, aln, T.names, e.vcf))
 
+\* aln: the real AlnWriter driven directly with an arbitrary increasing sequence of centres over contigs
+\* far larger than MC_AlnWriter's shapes.  The code-shaped writer of RefMap.tla is stepped alongside:
+\* its output and the declarative ExpectOut must both equal the recorded sequence (verdict); the
+\* recorded scalars after every call are compared with the model's (reported by AlnDrift, not a verdict).
+RECURSIVE WRun(_, _, _, _, _, _)
+WRun(w, contigs, k, writes, i, mask) ==
+   IF i > Len(writes) THEN w
+   ELSE WRun(WWrite(w, contigs, k, writes[i][1], writes[i][2], writes[i][3], mask), contigs, k, writes, i + 1, mask)
+AlnOK(e) ==
+   LET c == e.ctx
+       reps == ToSet(c.repeats)
+       final == WFinalise(WRun(WNew(c.contigs, c.k), c.contigs, c.k, c.writes, 1, c.mask_ambig), c.contigs, c.k, reps)
+   IN /\ e.panic = ""
+      /\ e.out = ExpectOut(c.contigs, c.k, c.writes, c.mask_ambig, reps)
+      /\ e.out = final.out
+      /\ e.total = TotalLen(c.contigs)
+
 Accept(e) == CASE e.ev = "ref" -> RefOK(e)
+               [] e.ev = "aln" -> AlnOK(e)
                [] e.ev = "map" -> MapOK(e)
                [] OTHER -> FALSE
 
